@@ -339,6 +339,17 @@ func handleLMove(params internal.HandlerFuncParams) ([]byte, error) {
 		return []byte("$-1\r\n"), nil
 	}
 
+	// If source and destination are the same list, the element is put back into what is left of that list
+	// once the element has been taken out (the list is rotated), not into the list as it was before.
+	if source == destination {
+		switch whereFrom {
+		case "left":
+			destinationList = append([]string{}, sourceList[1:]...)
+		case "right":
+			destinationList = append([]string{}, sourceList[:len(sourceList)-1]...)
+		}
+	}
+
 	switch whereFrom {
 	case "left":
 		err = params.SetValues(params.Context, map[string]interface{}{
